@@ -365,7 +365,7 @@ class X86_64Arch(Architecture):
                         int_regs.pop(0)
                 else:
                     # We need stack location!
-                    arg_size = self.info.get_size(arg_type)
+                    arg_size = 8  # Every argument uses a 8 byte stack slot
                     reg = StackLocation(offset, arg_size)
                     offset += arg_size
             elif isinstance(arg_type, ir.BlobDataTyp):
